@@ -3,9 +3,27 @@
 // well-formedness of the SCMP errors it answers with (C09).
 package main
 
-import "verif/mon"
+import (
+	"os"
+	"runtime/pprof"
+
+	"verif/mon"
+)
 
 func main() {
+	// optional CPU profile for tuning the generators (not used by the driver)
+	if p := os.Getenv("ROUTERFUZZ_CPUPROFILE"); p != "" {
+		if f, err := os.Create(p); err == nil {
+			_ = pprof.StartCPUProfile(f)
+			stop := func(r *mon.Run) {}
+			_ = stop
+			wrap := func(c func(*mon.Run)) func(*mon.Run) {
+				return func(r *mon.Run) { c(r); pprof.StopCPUProfile(); f.Close() }
+			}
+			mon.Main(map[string]func(*mon.Run){"C08": wrap(checkC08), "C09": wrap(checkC09)})
+			return
+		}
+	}
 	mon.Main(map[string]func(*mon.Run){
 		"C08": checkC08,
 		"C09": checkC09,
